@@ -17,3 +17,258 @@ def lemma_exchange_detailed_balance(Ui: float, Uj: float, Ti: float, Tj: float, 
     ax_exp_pos(Ti * Ui + Tj * Uj)
     ax_exp_pos((Uj - Ui) * (Ti - Tj))
     ax_exp_pos((Ui - Uj) * (Ti - Tj))
+
+
+# ---- sums over the distinct alleles of a genotype, re-indexed by allele
+
+
+@spec
+def FSUMFIRST(g: A[int, 1], W: A[float, 1], n: int) -> float:
+    """sum over the positions i < n that hold the first copy of their allele of W[g[i]]"""
+    decreases(n)
+    if n <= 0:
+        return 0.0
+    return FSUMFIRST(g, W, n - 1) + ite(FIRST(g, n - 1), real(W[g[n - 1]]), 0.0)
+
+
+@lemma(shared=True)
+def lemma_fsum_zero(a: A[float, 1], lo: int, hi: int):
+    requires(forall(lo, hi, lambda t: real(a[t]) == 0))
+    ensures(FSUM(a, lo, hi) == 0)
+    decreases(hi - lo)
+    unfold(FSUM(a, lo, hi))
+    if hi > lo:
+        lemma_fsum_zero(a, lo, hi - 1)
+
+
+@lemma(shared=True)
+def lemma_first_sum_by_allele(g: A[int, 1], W: A[float, 1], n: int, U: int):
+    """a sum over first copies is the sum over the alleles that occur"""
+    requires(n >= 0, forall(0, n, lambda i: 0 <= g[i] and g[i] < U))
+    ensures(FSUMFIRST(g, W, n) == FSUM(arrf1(lambda x: ite(CNT(g, x, n) > 0, real(W[x]), 0.0)), 0, U))
+    decreases(n)
+    unfold(FSUMFIRST(g, W, n))
+    if n > 0:
+        lemma_first_sum_by_allele(g, W, n - 1, U)
+        with forall_intro(x, 0, U, CNT(g, x, n) == CNT(g, x, n - 1) + ite(g[n - 1] == x, 1, 0) and CNT(g, x, n - 1) >= 0):
+            unfold(CNT(g, x, n))
+            lemma_cnt_range(g, x, n - 1)
+        lemma_fsum_upd(arrf1(lambda x: ite(CNT(g, x, n - 1) > 0, real(W[x]), 0.0)), arrf1(lambda x: ite(CNT(g, x, n) > 0, real(W[x]), 0.0)), 0, U, g[n - 1])
+    else:
+        with forall_intro(x, 0, U, CNT(g, x, 0) == 0):
+            unfold(CNT(g, x, 0))
+        lemma_fsum_zero(arrf1(lambda x: ite(CNT(g, x, 0) > 0, real(W[x]), 0.0)), 0, U)
+
+
+@lemma(shared=True)
+def lemma_lgsumg_is_firstsum(g: A[int, 1], P: int, n: int):
+    ensures(LGSUMG(g, P, n) == FSUMFIRST(g, arrf1(lambda x: lgamma(CNT(g, x, P) + 1)), n))
+    decreases(n)
+    unfold(LGSUMG(g, P, n), FSUMFIRST(g, arrf1(lambda x: lgamma(CNT(g, x, P) + 1)), n))
+    if n > 0:
+        lemma_lgsumg_is_firstsum(g, P, n - 1)
+
+
+@spec
+def LGSUMA(g: A[int, 1], P: int, U: int) -> float:
+    """sum over the alleles x < U that occur in g of lgamma(copies of x + 1)"""
+    return FSUM(arrf1(lambda x: ite(CNT(g, x, P) > 0, lgamma(CNT(g, x, P) + 1), 0.0)), 0, U)
+
+
+@lemma(shared=True)
+def lemma_lgsumg_by_allele(g: A[int, 1], P: int, U: int):
+    requires(P >= 0, VALIDA(g, P, U))
+    ensures(LGSUMG(g, P, P) == LGSUMA(g, P, U))
+    lemma_lgsumg_is_firstsum(g, P, P)
+    lemma_first_sum_by_allele(g, arrf1(lambda x: lgamma(CNT(g, x, P) + 1)), P, U)
+    unfold(LGSUMA(g, P, U))
+
+
+@lemma(props=["C02"])
+def lemma_perms_ratio(g: A[int, 1], g2: A[int, 1], k: int, a: int, P: int, U: int):
+    """replacing copy k (allele cur) by a different allele a changes the log number of equivalent
+    permutations by  log(copies of cur before) - log(copies of a after)"""
+    requires(P >= 1, VALIDA(g, P, U), 0 <= k, k < P, 0 <= a, a < U, a != g[k], forall(0, P, lambda i: g2[i] == ite(i == k, a, g[i])))
+    ensures(LGSUMG(g2, P, P) - LGSUMG(g, P, P) == real(log(CNT(g, a, P) + 1)) - real(log(CNT(g, g[k], P))))
+    lemma_lgsumg_by_allele(g, P, U)
+    lemma_lgsumg_by_allele(g2, P, U)
+    unfold(LGSUMA(g, P, U), LGSUMA(g2, P, U))
+    with forall_intro(x, 0, U, CNT(g2, x, P) == CNT(g, x, P) - ite(g[k] == x, 1, 0) + ite(a == x, 1, 0) and CNT(g, x, P) >= 0):
+        lemma_cnt_upd(g, g2, x, P, k)
+        lemma_cnt_range(g, x, P)
+    lemma_cnt_pos(g, P, k)
+    # two single-entry updates: first the entry of the old allele, then that of the new one
+    M = arrf1(lambda x: ite(x == g[k], ite(CNT(g2, x, P) > 0, lgamma(CNT(g2, x, P) + 1), 0.0), ite(CNT(g, x, P) > 0, lgamma(CNT(g, x, P) + 1), 0.0)))
+    lemma_fsum_upd(arrf1(lambda x: ite(CNT(g, x, P) > 0, lgamma(CNT(g, x, P) + 1), 0.0)), M, 0, U, g[k])
+    lemma_fsum_upd(M, arrf1(lambda x: ite(CNT(g2, x, P) > 0, lgamma(CNT(g2, x, P) + 1), 0.0)), 0, U, a)
+    ax_lgamma_rec(CNT(g, g[k], P))
+    ax_lgamma_rec(CNT(g, a, P) + 1)
+    ax_lgamma_one()
+
+
+@lemma(props=["C02"])
+def lemma_call_mh_detailed_balance(g: A[int, 1], g2: A[int, 1], k: int, a: int, P: int, U: int, llk: float, llk2: float, lp: float, lp2: float):
+    """C02: the Metropolis-Hastings vector of mh_options is in detailed balance.  With
+    rho(g) = likelihood x genotype prior / number of equivalent permutations (the target on *ordered* allele
+    vectors, whose image on unordered genotypes is likelihood x prior), for g2 = g[k := a], a != g[k]:
+        log rho(g) + log accept(g -> g2)  ==  log rho(g2) + log accept(g2 -> g)
+    where accept is the closed form proved for mh_options (the uniform 1/(U-1) proposal cancels)."""
+    requires(P >= 1, VALIDA(g, P, U), 0 <= k, k < P, 0 <= a, a < U, a != g[k], forall(0, P, lambda i: g2[i] == ite(i == k, a, g[i])))
+    requires(finite(llk), finite(llk2), finite(lp), finite(lp2))
+    ensures((llk + lp - (lgamma(P + 1) - LGSUMG(g, P, P))) + min(0.0, (llk2 - llk) + (lp2 - lp) + real(log(CNTU(g, k, a, P) / CNT(g, g[k], P)))) == (llk2 + lp2 - (lgamma(P + 1) - LGSUMG(g2, P, P))) + min(0.0, (llk - llk2) + (lp - lp2) + real(log(CNTU(g2, k, g[k], P) / CNT(g2, a, P)))))
+    lemma_perms_ratio(g, g2, k, a, P, U)
+    unfold(CNTU(g, k, a, P), CNTU(g2, k, g[k], P))
+    lemma_cnt_upd(g, g2, a, P, k)
+    lemma_cnt_upd(g, g2, g[k], P, k)
+    lemma_cnt_pos(g, P, k)
+    lemma_cnt_range(g, a, P)
+    ax_log_div(CNT(g, a, P) + 1, CNT(g, g[k], P))
+    ax_log_div(CNT(g, g[k], P), CNT(g, a, P) + 1)
+
+
+# ---- the single-allele conditional prior is the exact conditional of the joint prior (C05, C02)
+
+
+@spec
+def DMA(g: A[int, 1], P: int, U: int, al: float) -> float:
+    """sum over the alleles x < U that occur in g of lgamma(copies + al) - lgamma(al)"""
+    return FSUM(arrf1(lambda x: ite(CNT(g, x, P) > 0, lgamma(CNT(g, x, P) + al) - lgamma(al), 0.0)), 0, U)
+
+
+@lemma(shared=True)
+def lemma_dm_is_firstsum(g: A[int, 1], P: int, al: float, n: int):
+    ensures(DMSUMC(g, P, al, n) + LGSUMG(g, P, n) == FSUMFIRST(g, arrf1(lambda x: lgamma(CNT(g, x, P) + al) - lgamma(al)), n))
+    decreases(n)
+    unfold(DMSUMC(g, P, al, n), LGSUMG(g, P, n), FSUMFIRST(g, arrf1(lambda x: lgamma(CNT(g, x, P) + al) - lgamma(al)), n))
+    if n > 0:
+        lemma_dm_is_firstsum(g, P, al, n - 1)
+
+
+@lemma(shared=True)
+def lemma_dm_by_allele(g: A[int, 1], P: int, U: int, al: float):
+    requires(P >= 0, VALIDA(g, P, U))
+    ensures(DMSUMC(g, P, al, P) + LGSUMG(g, P, P) == DMA(g, P, U, al))
+    lemma_dm_is_firstsum(g, P, al, P)
+    lemma_first_sum_by_allele(g, arrf1(lambda x: lgamma(CNT(g, x, P) + al) - lgamma(al)), P, U)
+    unfold(DMA(g, P, U, al))
+
+
+@spec_inline
+def SEQ_FLAT(g: A[int, 1], P: int, U: int, F: float) -> float:
+    """log prior of the *ordered* allele vector g: the unordered-genotype prior divided by its number of equivalent permutations"""
+    return CPRIOR_FLAT(g, P, U, F) - (lgamma(P + 1) - LGSUMG(g, P, P))
+
+
+@lemma(props=["C05", "C02"])
+def lemma_conditional_prior_is_exact_flat(g: A[int, 1], ga: A[int, 1], gb: A[int, 1], k: int, a: int, b: int, P: int, U: int, F: float):
+    """C05 / C02: the single-allele prior used by the Gibbs move (CONDP: Polya urn) is proportional, as a function of
+    the allele put at copy k, to the joint prior of the ordered vector -- i.e. it is the exact conditional of the
+    genotype prior.  (Flat frequencies; the common denominator of CONDP cancels in the ratio.)"""
+    requires(P >= 1, U >= 1, VALIDA(g, P, U), 0 <= k, k < P, 0 <= a, a < U, 0 <= b, b < U, a != b, 0 <= F, F < 1)
+    requires(forall(0, P, lambda i: ga[i] == ite(i == k, a, g[i])), forall(0, P, lambda i: gb[i] == ite(i == k, b, g[i])))
+    ensures(implies(F == 0, SEQ_FLAT(ga, P, U, F) == SEQ_FLAT(gb, P, U, F)))
+    ensures(implies(F > 0, SEQ_FLAT(ga, P, U, F) - SEQ_FLAT(gb, P, U, F) == real(log(ALPHA(F, 1 / U) + CNT(g, a, P) - ite(g[k] == a, 1, 0))) - real(log(ALPHA(F, 1 / U) + CNT(g, b, P) - ite(g[k] == b, 1, 0)))))
+    if F > 0:
+        lemma_dm_by_allele(ga, P, U, ALPHA(F, 1 / U))
+        lemma_dm_by_allele(gb, P, U, ALPHA(F, 1 / U))
+        unfold(DMA(ga, P, U, ALPHA(F, 1 / U)), DMA(gb, P, U, ALPHA(F, 1 / U)))
+        with forall_intro(x, 0, U, CNT(ga, x, P) == CNT(g, x, P) - ite(g[k] == x, 1, 0) + ite(a == x, 1, 0) and CNT(gb, x, P) == CNT(g, x, P) - ite(g[k] == x, 1, 0) + ite(b == x, 1, 0) and CNT(g, x, P) - ite(g[k] == x, 1, 0) >= 0):
+            lemma_cnt_upd(g, ga, x, P, k)
+            lemma_cnt_upd(g, gb, x, P, k)
+            lemma_cnt_range(g, x, P)
+            if g[k] == x:
+                lemma_cnt_pos(g, P, k)
+        AL = ALPHA(F, 1 / U)
+        M = arrf1(lambda x: ite(x == a, ite(CNT(gb, x, P) > 0, lgamma(CNT(gb, x, P) + AL) - lgamma(AL), 0.0), ite(CNT(ga, x, P) > 0, lgamma(CNT(ga, x, P) + AL) - lgamma(AL), 0.0)))
+        lemma_fsum_upd(arrf1(lambda x: ite(CNT(ga, x, P) > 0, lgamma(CNT(ga, x, P) + AL) - lgamma(AL), 0.0)), M, 0, U, a)
+        lemma_fsum_upd(M, arrf1(lambda x: ite(CNT(gb, x, P) > 0, lgamma(CNT(gb, x, P) + AL) - lgamma(AL), 0.0)), 0, U, b)
+        ax_lgamma_rec(AL + CNT(g, a, P) - ite(g[k] == a, 1, 0))
+        ax_lgamma_rec(AL + CNT(g, b, P) - ite(g[k] == b, 1, 0))
+
+
+@spec
+def DMAF(g: A[int, 1], P: int, U: int, f: A[float, 1], c: float) -> float:
+    return FSUM(arrf1(lambda x: ite(CNT(g, x, P) > 0, lgamma(CNT(g, x, P) + f[x] * c) - lgamma(f[x] * c), 0.0)), 0, U)
+
+
+@lemma(shared=True)
+def lemma_dmf_is_firstsum(g: A[int, 1], P: int, f: A[float, 1], c: float, n: int):
+    ensures(DMSUMF(g, P, f, c, n) + LGSUMG(g, P, n) == FSUMFIRST(g, arrf1(lambda x: lgamma(CNT(g, x, P) + f[x] * c) - lgamma(f[x] * c)), n))
+    decreases(n)
+    unfold(DMSUMF(g, P, f, c, n), LGSUMG(g, P, n), FSUMFIRST(g, arrf1(lambda x: lgamma(CNT(g, x, P) + f[x] * c) - lgamma(f[x] * c)), n))
+    if n > 0:
+        lemma_dmf_is_firstsum(g, P, f, c, n - 1)
+
+
+@lemma(shared=True)
+def lemma_dmf_by_allele(g: A[int, 1], P: int, U: int, f: A[float, 1], c: float):
+    requires(P >= 0, VALIDA(g, P, U))
+    ensures(DMSUMF(g, P, f, c, P) + LGSUMG(g, P, P) == DMAF(g, P, U, f, c))
+    lemma_dmf_is_firstsum(g, P, f, c, P)
+    lemma_first_sum_by_allele(g, arrf1(lambda x: lgamma(CNT(g, x, P) + f[x] * c) - lgamma(f[x] * c)), P, U)
+    unfold(DMAF(g, P, U, f, c))
+
+
+@lemma(shared=True)
+def lemma_fprod_upd(f: A[float, 1], g: A[int, 1], g2: A[int, 1], k: int, n: int):
+    """g2 = g except at copy k:  FPROD(g2) f[g[k]] == FPROD(g) f[g2[k]]"""
+    requires(0 <= k, k < n, forall(0, n, lambda i: implies(i != k, g2[i] == g[i])))
+    ensures(FPROD(f, g2, n) * real(f[g[k]]) == FPROD(f, g, n) * real(f[g2[k]]))
+    decreases(n)
+    unfold(FPROD(f, g2, n), FPROD(f, g, n))
+    if k < n - 1:
+        lemma_fprod_upd(f, g, g2, k, n - 1)
+    else:
+        lemma_fprod_ext(f, g, g2, n - 1)
+
+
+@spec_inline
+def SEQ_FREQ(g: A[int, 1], P: int, f: A[float, 1], U: int, F: float) -> float:
+    return CPRIOR_FREQ(g, P, f, U, F) - (lgamma(P + 1) - LGSUMG(g, P, P))
+
+
+@lemma(props=["C05", "C02"])
+def lemma_conditional_prior_is_exact_freq(g: A[int, 1], ga: A[int, 1], gb: A[int, 1], k: int, a: int, b: int, P: int, U: int, f: A[float, 1], F: float):
+    """... with prior allele frequencies f (all positive): dispersion f[x] (1-F)/F"""
+    requires(P >= 1, U >= 1, VALIDA(g, P, U), 0 <= k, k < P, 0 <= a, a < U, 0 <= b, b < U, a != b, 0 <= F, F < 1, forall(0, U, lambda x: real(f[x]) > 0))
+    requires(forall(0, P, lambda i: ga[i] == ite(i == k, a, g[i])), forall(0, P, lambda i: gb[i] == ite(i == k, b, g[i])))
+    ensures(implies(F == 0, SEQ_FREQ(ga, P, f, U, F) - SEQ_FREQ(gb, P, f, U, F) == real(log(f[a])) - real(log(f[b]))))
+    ensures(implies(F > 0, SEQ_FREQ(ga, P, f, U, F) - SEQ_FREQ(gb, P, f, U, F) == real(log(ALPHA(F, f[a]) + CNT(g, a, P) - ite(g[k] == a, 1, 0))) - real(log(ALPHA(F, f[b]) + CNT(g, b, P) - ite(g[k] == b, 1, 0)))))
+    with forall_intro(x, 0, U, CNT(ga, x, P) == CNT(g, x, P) - ite(g[k] == x, 1, 0) + ite(a == x, 1, 0) and CNT(gb, x, P) == CNT(g, x, P) - ite(g[k] == x, 1, 0) + ite(b == x, 1, 0) and CNT(g, x, P) - ite(g[k] == x, 1, 0) >= 0):
+        lemma_cnt_upd(g, ga, x, P, k)
+        lemma_cnt_upd(g, gb, x, P, k)
+        lemma_cnt_range(g, x, P)
+        if g[k] == x:
+            lemma_cnt_pos(g, P, k)
+    if F > 0:
+        C0 = (1 - F) / F
+        lemma_dmf_by_allele(ga, P, U, f, C0)
+        lemma_dmf_by_allele(gb, P, U, f, C0)
+        unfold(DMAF(ga, P, U, f, C0), DMAF(gb, P, U, f, C0))
+        M = arrf1(lambda x: ite(x == a, ite(CNT(gb, x, P) > 0, lgamma(CNT(gb, x, P) + f[x] * C0) - lgamma(f[x] * C0), 0.0), ite(CNT(ga, x, P) > 0, lgamma(CNT(ga, x, P) + f[x] * C0) - lgamma(f[x] * C0), 0.0)))
+        lemma_fsum_upd(arrf1(lambda x: ite(CNT(ga, x, P) > 0, lgamma(CNT(ga, x, P) + f[x] * C0) - lgamma(f[x] * C0), 0.0)), M, 0, U, a)
+        lemma_fsum_upd(M, arrf1(lambda x: ite(CNT(gb, x, P) > 0, lgamma(CNT(gb, x, P) + f[x] * C0) - lgamma(f[x] * C0), 0.0)), 0, U, b)
+        ax_lgamma_rec(real(f[a]) * C0 + CNT(g, a, P) - ite(g[k] == a, 1, 0))
+        ax_lgamma_rec(real(f[b]) * C0 + CNT(g, b, P) - ite(g[k] == b, 1, 0))
+    else:
+        lemma_lgsumg_by_allele(ga, P, U)
+        lemma_lgsumg_by_allele(gb, P, U)
+        lemma_fprod_upd(f, ga, gb, k, P)
+        lemma_fprod_pos(f, ga, P)
+        lemma_fprod_pos(f, gb, P)
+        ax_log_mul(FPROD(f, gb, P), real(f[a]))
+        ax_log_mul(FPROD(f, ga, P), real(f[b]))
+
+
+@lemma(props=["C02"])
+def lemma_gibbs_is_exact_conditional(pa: float, pb: float, llka: float, llkb: float, lpa: float, lpb: float, seqa: float, seqb: float):
+    """C02: Gibbs probabilities proportional to exp(llk + conditional log prior) are proportional to the joint
+    weights exp(llk + log prior of the ordered vector) whenever the conditional prior differs from the joint prior
+    by a constant (lemma_conditional_prior_is_exact_*): the Gibbs move draws from the exact full conditional."""
+    requires(finite(pa), finite(pb), finite(llka), finite(llkb), finite(lpa), finite(lpb), finite(seqa), finite(seqb))
+    requires(PROPTO(pa, exp(llka + lpa), pb, exp(llkb + lpb)), seqa - seqb == lpa - lpb)
+    ensures(PROPTO(pa, exp(llka + seqa), pb, exp(llkb + seqb)))
+    unfold(PROPTO(pa, exp(llka + lpa), pb, exp(llkb + lpb)), PROPTO(pa, exp(llka + seqa), pb, exp(llkb + seqb)))
+    ax_exp_add(llka + lpa, seqa - lpa)
+    ax_exp_add(llkb + lpb, seqb - lpb)
+    ax_exp_pos(seqa - lpa)
